@@ -1641,6 +1641,11 @@ def call_builtin_class(I, st, c, args, kwargs):
     elif n == "type":
         yield st, type_of(I, st, args[0])
     elif n == "range":
+        bad = [a for a in args if a is None or isinstance(a, (tuple, str)) or (isinstance(a, Ref) and st.get(a).kind in ("list", "dict", "set"))]
+        if bad:
+            # range(None) / range((2, 3)) / range("3") / range([..]): exactly Python's TypeError
+            yield st, exc("TypeError", "object cannot be interpreted as an integer")
+            return
         yield st, make_range(I, st, args)
     elif n == "ndarray":
         from . import npmodel
@@ -3147,6 +3152,8 @@ def make_ext_modules(I):
     for n in ("IGNORECASE", "I", "MULTILINE", "M", "DOTALL", "S", "VERBOSE", "X"):
         E["re"][n] = int(_b.getattr(_re, n))
     E["warnings"] = {"warn": bi("warnings.warn", lambda I, st, a, k: iter([(st, None)]))}
+    # traceback.format_exc(): a string whose content is unspecified (opaque text, only ever formatted into messages)
+    E["traceback"] = {"format_exc": bi("traceback.format_exc", lambda I, st, a, k: iter([(st, Opaque("traceback text"))]))}
 
     from . import npmodel, bytesmodel
 
